@@ -44,12 +44,12 @@ IntSufRep   == IF Level = 1 THEN {<<>>, <<"u">>, <<"L","L">>, <<"l","u">>}
 FloatSufValid == {<<>>, <<"f">>, <<"F">>, <<"l">>, <<"L">>, <<"d">>, <<"D">>}
 FloatSufRep   == IF Level = 1 THEN {<<>>, <<"f">>, <<"L">>} ELSE FloatSufValid
 
-K == IF Level = 1 THEN 1 ELSE 2        \* extra digits after the first one
+K == 1                                  \* extra digits after the first one (2 makes TLC spend > 30 min building the universe)
 
 (* ---- valid integers ------------------------------------------------------ *)
 DecBodies == {<<"0">>} \cup Cat(One(NonZero), Str(Digit, 0, K))
 OctBodies == Cat({<<"0">>}, Str(OctDigit, 1, K + 1))
-HexBodies == Cat3({<<"0","x">>, <<"0","X">>}, One(HexDigit), Str(HexDigit, 0, K))
+HexBodies == Cat3({<<"0","x">>, <<"0","X">>}, One(HexDigit), Str(HexDigit, 0, 1))      \* 22 hex digit spellings: one extra digit at both levels
 BinBodies == Cat3({<<"0","b">>, <<"0","B">>}, One(BinDigit), Str(BinDigit, 0, K))
 (* hexadecimal constants whose first digits are b/B/e/E followed by decimal digits, longer *)
 HexTricky == Cat3({<<"0","x">>, <<"0","X">>}, One({"b","B","e","E","a","f"}),
@@ -60,11 +60,11 @@ IntBodiesRep == {<<"0">>, <<"7">>, <<"1","0">>, <<"0","1","7">>, <<"0","x","1","
 ValidInts == Cat(IntBodiesAll, IntSufRep) \cup Cat(IntBodiesRep, IntSufValid)
 
 (* ---- valid floating constants ------------------------------------------- *)
-FD  == IF Level = 1 THEN {<<"0">>, <<"9">>, <<"1","0">>} ELSE Str({"0", "1", "9"}, 1, 2)
+FD  == {<<"0">>, <<"9">>, <<"1","0">>}
 ExpPart == Cat3({<<"e">>, <<"E">>}, {<<>>, <<"+">>, <<"-">>}, FD)
 DecFrac == Cat3(FD, {<<".">>}, FD) \cup Cat({<<".">>}, FD) \cup Cat(FD, {<<".">>})
 DecFloatBodies == Cat(DecFrac, Opt(ExpPart)) \cup Cat(FD, ExpPart)
-HD  == IF Level = 1 THEN {<<"1">>, <<"f">>, <<"A","b">>} ELSE {<<"1">>, <<"f">>, <<"A">>, <<"1","f">>, <<"e">>, <<"b","3">>}
+HD  == IF Level = 1 THEN {<<"1">>, <<"f">>, <<"A","b">>} ELSE {<<"1">>, <<"f">>, <<"A","b">>, <<"e">>, <<"b","3">>}
 PExp == Cat3({<<"p">>, <<"P">>}, {<<>>, <<"+">>, <<"-">>}, {<<"1">>, <<"1","0">>})
 HexMant == Cat3(HD, {<<".">>}, HD) \cup Cat({<<".">>}, HD) \cup Cat(HD, {<<".">>}) \cup HD
 HexFloatBodies == Cat3({<<"0","x">>, <<"0","X">>}, HexMant, PExp)
@@ -122,6 +122,8 @@ Universe ==
                 \cup MalF("M1", M1) \cup MalF("M2", M2) \cup MalF("M3", M3) \cup MalF("M4", M4) \cup MalF("M5", M5)
                 \cup MalF("M6", M6) \cup MalF("M7", M7) \cup MalF("M8", M8) \cup MalF("M9", M9)
                 \cup MalF("M12", M12) \cup MalF("M13", M13)
+        (* level 2 = the literal sets of level 1 with every escape sequence, all suffix spellings and ALL 24 contexts  *)
+        (* (larger digit alphabets make TLC spend more than half an hour building the universe set)                  *)
         ctx(l) == IF Level = 1 /\ l.fam \in {"int", "float"}
                   THEN {<< <<>>, <<>> >>, << <<"=", " ">>, <<";">> >>, << <<"(">>, <<")">> >>}
                   ELSE IF Level = 1 /\ l.fam = "string"
